@@ -711,6 +711,7 @@ func genHttpSites() {
 		}
 	}
 	b.WriteString(muxFacts)
+	b.WriteString(httpCheckLocalReads(x))
 	b.WriteString("def httpRoutes : List Route := [")
 	for i, r := range routes {
 		if i > 0 {
@@ -1232,4 +1233,65 @@ func httpMuxFacts(files []*ast.File, pkg *types.Package, conf *types.Config) str
 	fmt.Fprintf(&b, "def httpClosureSideEffect : List String := %s\n", q(side))
 	fmt.Fprintf(&b, "def httpDefaultMuxUsers : List String := %s\n", q(users))
 	return b.String()
+}
+
+// httpCheckLocalReads: the data dependencies of checkLocal on the request.  Every selector
+// on the *http.Request parameter (r.Host, r.Header, r.URL, r.RemoteAddr, r.Form, method
+// calls such as r.Cookie(…)) is listed once, in source order; handing the request itself to
+// another function is listed as "r -> f(…)" (fail-closed: the callee could read anything),
+// and so is any use of r that is not a selector.  Expected: ["r.Host"].
+func httpCheckLocalReads(x *hx) string {
+	fd := x.funcs["checkLocal"]
+	var reads []string
+	seen := map[string]bool{}
+	add := func(s string) {
+		if !seen[s] {
+			seen[s] = true
+			reads = append(reads, s)
+		}
+	}
+	if fd == nil || fd.Body == nil || fd.Type.Params == nil {
+		add("checkLocal not found")
+	} else {
+		// the parameter of type *http.Request
+		var req types.Object
+		for _, p := range fd.Type.Params.List {
+			if t := x.info.TypeOf(p.Type); t != nil && t.String() == "*net/http.Request" {
+				for _, n := range p.Names {
+					req = x.info.ObjectOf(n)
+				}
+			}
+		}
+		if req == nil {
+			add("no *http.Request parameter")
+		} else {
+			handled := map[*ast.Ident]bool{}
+			ast.Inspect(fd.Body, func(n ast.Node) bool {
+				switch n := n.(type) {
+				case *ast.SelectorExpr:
+					if id, ok := n.X.(*ast.Ident); ok && x.info.ObjectOf(id) == req {
+						handled[id] = true
+						add("r." + n.Sel.Name)
+					}
+				case *ast.CallExpr:
+					for _, a := range n.Args {
+						if id, ok := a.(*ast.Ident); ok && x.info.ObjectOf(id) == req {
+							handled[id] = true
+							add("r -> " + src(n.Fun) + "(…)")
+						}
+					}
+				case *ast.Ident:
+					if x.info.ObjectOf(n) == req && !handled[n] && x.info.Defs[n] == nil {
+						add("r used as a value")
+					}
+				}
+				return true
+			})
+		}
+	}
+	var w []string
+	for _, r := range reads {
+		w = append(w, leanStr(r))
+	}
+	return "def checkLocalReads : List String := [" + strings.Join(w, ", ") + "]\n"
 }
